@@ -20,7 +20,7 @@ def Element.ChOut.timeAsRequested (t : Bool) : ChOut → Prop
   | .arrays a _ time => time.isSome = (t && !(Dict.has a "time"))
 
 /-- one channel of `getArrays` -/
-theorem chanOut_spec (t : Bool) (ent : ChEntry) (o : ChOut) (h : chanOut t ent = .ok o) :
+theorem g4_chanOut_spec (t : Bool) (ent : ChEntry) (o : ChOut) (h : chanOut t ent = .ok o) :
     o.flags = ent.flags ∧ o.timeAsRequested t ∧
     (∀ b, ent.data = .bp b → ∃ f, forgeBP b = .ok f ∧ o = .forged f ent.flags t) ∧
     (∀ a sv, ent.data = .arr a sv → ∃ time, o = .arrays a ent.flags time) ∧ ent.data ≠ .broken := by
@@ -70,7 +70,7 @@ theorem chanOut_spec (t : Bool) (ent : ChEntry) (o : ChOut) (h : chanOut t ent =
 
 namespace Sequence
 
-theorem attach_frame (s : Sequence) (apply : Bool) (x : Chan × Element.ChOut) (y : Chan × ChOutF)
+theorem g4_attach_frame (s : Sequence) (apply : Bool) (x : Chan × Element.ChOut) (y : Chan × ChOutF)
     (h : s.attach apply x = .ok y) :
     y.1 = x.1 ∧ y.2.out = x.2 ∧ (apply = false → y.2.filt = none) ∧ (apply = true → s.filterOf x.1 = .ok y.2.filt) := by
   unfold Sequence.attach at h
@@ -88,7 +88,7 @@ theorem attach_frame (s : Sequence) (apply : Bool) (x : Chan × Element.ChOut) (
 
 /-- the filter step, channel by channel: ids, order and arrays untouched; the annotation is the
     channel's own declared filter (none when filters are off) -/
-theorem withFilters_getElem (s : Sequence) (apply : Bool) (d : Dict Chan Element.ChOut) (r : Dict Chan ChOutF)
+theorem g4_withFilters_getElem (s : Sequence) (apply : Bool) (d : Dict Chan Element.ChOut) (r : Dict Chan ChOutF)
     (h : s.withFilters apply d = .ok r) :
     r.length = d.length ∧
     ∀ i (hi : i < d.length) (hr : i < r.length),
@@ -97,7 +97,7 @@ theorem withFilters_getElem (s : Sequence) (apply : Bool) (d : Dict Chan Element
   unfold Sequence.withFilters at h
   refine ⟨mapM_ok_length _ _ _ h, ?_⟩
   intro i hi hr
-  exact attach_frame s apply d[i] r[i] (mapM_ok_getElem _ _ _ h i hi hr)
+  exact g4_attach_frame s apply d[i] r[i] (mapM_ok_getElem _ _ _ h i hi hr)
 
 /-- how a stored channel entry relates to the entry after the (optional) delay step -/
 def DelayedFrom (ent ent' : ChEntry) : Prop :=
@@ -106,7 +106,7 @@ def DelayedFrom (ent ent' : ChEntry) : Prop :=
   (∀ a sv, ent.data = .arr a sv → ∃ a', ent'.data = .arr a' sv ∧ Dict.keys a' = Dict.keys a) ∧
   ent.data ≠ .broken
 
-theorem keys_padAll (pre post : Nat) (a : Dict String (List Rat)) : Dict.keys (Paths.padAll pre post a) = Dict.keys a := by
+theorem g4_keys_padAll (pre post : Nat) (a : Dict String (List Rat)) : Dict.keys (Paths.padAll pre post a) = Dict.keys a := by
   simp [Paths.padAll, Dict.keys, List.map_map, Function.comp_def]
 
 /-- **the delay step, channel by channel**: the delayed element lists the same channel ids in the
@@ -116,16 +116,16 @@ theorem delayedEl_frame (s : Sequence) (e e' : Element) (h : s.delayElement e = 
     e'.chans.length = e.chans.length ∧
     ∀ k (hk : k < e.chans.length) (hk' : k < e'.chans.length),
       (e'.chans[k]).1 = (e.chans[k]).1 ∧ DelayedFrom (e.chans[k]).2 (e'.chans[k]).2 := by
-  obtain ⟨ds, _, herr, hst⟩ := delayElement_ok s e e' h
-  obtain ⟨m, sr, _, _, hlen, hl, hall⟩ := applyDelays_getElem e ds herr
+  obtain ⟨ds, _, herr, hst⟩ := g4_delayElement_ok s e e' h
+  obtain ⟨m, sr, _, _, hlen, hl, hall⟩ := g4_applyDelays_getElem e ds herr
   subst hst
   refine ⟨hl, fun k hk hk' => ?_⟩
   obtain ⟨h1, h2⟩ := hall k hk hk' (by omega)
-  refine ⟨h1, dEnt_flags _ _ _ _ _ h2, ?_, ?_, (dEnt_data _ _ _ _ _ h2).2.2⟩
+  refine ⟨h1, g4_dEnt_flags _ _ _ _ _ h2, ?_, ?_, (g4_dEnt_data _ _ _ _ _ h2).2.2⟩
   · intro b hb
-    exact ⟨_, (dEnt_data _ _ _ _ _ h2).1 b hb⟩
+    exact ⟨_, (g4_dEnt_data _ _ _ _ _ h2).1 b hb⟩
   · intro a sv ha
-    exact ⟨_, (dEnt_data _ _ _ _ _ h2).2.1 a sv ha, keys_padAll _ _ _⟩
+    exact ⟨_, (g4_dEnt_data _ _ _ _ _ h2).2.1 a sv ha, g4_keys_padAll _ _ _⟩
 
 /-- **one element through `forge`** (delay step if requested, `getArrays`, filter step): forged
     channel `k` is the element's `k`-th channel — same id —, carries that channel's flags, has the
@@ -155,14 +155,14 @@ theorem element_output_frame (s : Sequence) (d f t : Bool) (e e' : Element) (arr
       subst h1
       exact ⟨rfl, fun k hk hk' => Or.inr rfl⟩
   obtain ⟨hl1, hfr⟩ := hfr
-  obtain ⟨hl2, hga⟩ := getArrays_getElem e' t arr h2
-  obtain ⟨hl3, hwf⟩ := withFilters_getElem s f arr c h3
+  obtain ⟨hl2, hga⟩ := g4_getArrays_getElem e' t arr h2
+  obtain ⟨hl3, hwf⟩ := g4_withFilters_getElem s f arr c h3
   refine ⟨by omega, fun k hk hc => ?_⟩
   have k1 : k < e'.chans.length := by omega
   have k2 : k < arr.length := by omega
   obtain ⟨g1, g2⟩ := hga k k1 k2
   obtain ⟨w1, w2, w3, w4⟩ := hwf k k2 hc
-  obtain ⟨o1, o2, o3, o4, o5⟩ := chanOut_spec t _ _ g2
+  obtain ⟨o1, o2, o3, o4, o5⟩ := g4_chanOut_spec t _ _ g2
   have hkey : (e'.chans[k]).1 = (e.chans[k]).1 := by
     rcases hfr k hk k1 with h | h
     · exact h.1
